@@ -2,10 +2,12 @@ module google.golang.org/grpc/verif/harness
 
 go 1.25.0
 
-require google.golang.org/grpc v0.0.0
+require (
+	golang.org/x/net v0.58.0
+	google.golang.org/grpc v0.0.0
+)
 
 require (
-	golang.org/x/net v0.58.0 // indirect
 	golang.org/x/sys v0.47.0 // indirect
 	golang.org/x/text v0.41.0 // indirect
 	google.golang.org/genproto/googleapis/rpc v0.0.0-20260817212433-ac3dfec99bb1 // indirect
